@@ -47,6 +47,8 @@ pub fn batch_mappings(batch_seed: u64, n: u64, corpus: bool, large: bool) -> (Ve
         let mut rng = Rng::new(run_seed(batch_seed, "C14.big", 0));
         let cfg = gen::GenCfg { max_classes: 420, max_members: 44, pct_long_name: 1, pct_noise: 1, class_pool: 16, ..gen::GenCfg::swarm(&mut rng, 10, 10) };
         v.push(gen::gen_mapping(&mut rng, &cfg));
+        // one huge mapping (> 65 536 classes and members)
+        v.push(gen::gen_huge(&mut rng));
         // and one with wide classes (> 64 distinct methods per class)
         let cfg = gen::GenCfg { max_classes: 6, max_members: 10, pct_wide_class: 60, class_pool: 16, ..gen::GenCfg::swarm(&mut rng, 10, 10) };
         v.push(gen::gen_mapping(&mut rng, &cfg));
@@ -534,7 +536,7 @@ pub fn main(env: &Env) -> i32 {
     let thorough = env.thorough;
     let (n_batches, n, n_children, max_threads) = if thorough { (env.scaled(12), 1500u64, 64u64, 8u64) } else { (1, env.scaled(220), 12u64, 6u64) };
     rep.rule = format!(
-        "{} batch(es); per batch {} seeded-generated mappings (0..12 classes x 0..12 members) + 3 hand-written tie/duplicate/orphan shapes + one big generated mapping (> 8192 records) + all corpus files (incl. the 0.7 MB and 2.3 MB ones) + an equal-length sibling for every 6th mapping are serialised by {} separately started processes, each with its own hash seed, heap layout and processing order; \
+        "{} batch(es); per batch {} seeded-generated mappings (0..12 classes x 0..12 members) + 3 hand-written tie/duplicate/orphan shapes + one big generated mapping (> 8192 records) + one huge one (> 65 536 classes and members) + all corpus files (incl. the 0.7 MB and 2.3 MB ones) + an equal-length sibling for every 6th mapping are serialised by {} separately started processes, each with its own hash seed, heap layout and processing order; \
          inside a process every mapping is written twice (heap perturbed in between) and then by 2..{} threads concurrently under the seeded baton (every sink call is a scheduling point, chunk cap drawn from {{inf,64,7}}); finally equal-length siblings are copied into one reused buffer and written back to back in seed-dependent order (address reuse). \
          Oracle: all outputs for one mapping are byte-identical (compared by 64-bit digest + length; full bytes re-fetched on mismatch) and as long as their own header implies. \
          distinct_nontrivial = distinct (process, mapping, phase) outputs compared beyond the reference write.",
@@ -588,6 +590,7 @@ pub fn main(env: &Env) -> i32 {
             });
             let mut msg = message.clone();
             let probe_seeds: Vec<u64> = if seeds[0] == seeds[1] { vec![seeds[0], seeds[0] + 1] } else { seeds.clone() };
+            start_minimise_clock(40);
             if single_mapping_violates(&mapping, &class, &probe_seeds).is_some() {
                 let mut budget = 120usize;
                 let lines = split_lines(&mapping);
